@@ -188,9 +188,9 @@ impl Check for C15 {
         match tier {
             Tier::Quick => vec![
                 Section { name: "all-shapes-sizes-1..=24", runs: small_total(24) },
-                Section { name: "production-size-seeded", runs: 40_000 },
+                Section { name: "production-size-seeded", runs: 30_000 },
                 Section { name: "production-size-faults", runs: 6_000 },
-                Section { name: "concurrent-discoveries", runs: 3_000 },
+                Section { name: "concurrent-discoveries", runs: 1_200 },
             ],
             Tier::Thorough => vec![
                 Section { name: "all-shapes-sizes-1..=64", runs: small_total(64) },
